@@ -16,10 +16,25 @@ def proj_obs(o):
 
 def run(ctx):
     bits = {1024, 2048} if ctx.quick else {1024, 2048, 4096}
-    info = chan_info(ctx, bits)
+    info = chan_info(ctx, bits, main_bits={4096})     # the padding sweep needs a receiver key above 2048 bits (two size bytes)
+
+    def sweep(pol, d, sb, rb, step):
+        return '[pol |-> "%s", dir |-> "%s", sbits |-> %d, rbits |-> %d, step |-> %d]' % (pol, d, sb, rb, step)
+    if ctx.quick:
+        # every padding size for one policy per key size class (one / two size bytes), a sample of the period for the others
+        sweeps = [sweep("Basic256Sha256", "s2c", 2048, 4096, 1), sweep("Basic256Sha256", "c2s", 2048, 2048, 1),
+                  sweep("Basic128Rsa15", "c2s", 1024, 1024, 13), sweep("Basic256", "s2c", 2048, 1024, 13),
+                  sweep("Aes128Sha256RsaOaep", "c2s", 2048, 4096, 29), sweep("Aes256Sha256RsaPss", "c2s", 2048, 4096, 29)]
+    else:
+        sweeps = [sweep(p, d, sb, rb, 1) for d in ("c2s", "s2c")
+                  for p, prs in (("Basic128Rsa15", ((1024, 1024), (2048, 2048))), ("Basic256", ((1024, 1024), (2048, 2048))),
+                                 ("Basic256Sha256", ((2048, 2048), (2048, 4096), (4096, 4096))),
+                                 ("Aes128Sha256RsaOaep", ((2048, 2048), (2048, 4096), (4096, 4096))),
+                                 ("Aes256Sha256RsaPss", ((2048, 2048), (2048, 4096), (4096, 4096))))
+                  for sb, rb in prs]
     sizes = {0, 8196, 8197, 8300} if ctx.quick else ({0, 8300, 9000, 12345, 16384} | set(range(8196, 8213)))
     consts = {"ChunkSizes": sizes, "KeyBits": bits, "CertLen": info["certs"], "MinLen": info["mins"],
-              "DevSignPadded": True}
+              "Sweeps": Tla("{" + ", ".join(sweeps) + "}"), "DevSignPadded": True}
     # the corrected design (padding only in encrypted chunks) satisfies Reassemble(Receive(Secure(Split(m)))) = m and the
     # chunk rules for every case
     ctx.model_check("design", "MCChunkLayout", dict(consts, DevSignPadded=False), ["DesignOK"], spec="Spec", workers=4)
@@ -33,7 +48,9 @@ def run(ctx):
         rule="TLC enumerates chunk kind (symmetric MSG, asymmetric OPN) x 6 policies x 3 modes x direction x chunk size limit "
              "{0 = unlimited, 8196, 8197, 8300; thorough: 8196..8212 (every alignment to the AES block), 8300, 9000, 12345, 16384} x message length placed by the layout itself around the chunk boundaries (smallest "
              "message, B-1, B, B+1, 2B, 2B+1, 3B+7 for the maximal body B; OPN: smallest, every padding situation around a full RSA "
-             "plain text block, a chunk filled to the limit) x certificate key sizes allowed by the policy (1024/2048, thorough adds "
+             "plain text block, a chunk filled to the limit; PADDING SWEEP: plain block + 3 consecutive body lengths = every padding size "
+             "of the RSA scheme, for receiver keys up to 2048 bits (one size byte) and above (4096: two size bytes) - quick: every "
+             "size for Basic256Sha256, every 13th / 29th for the other policies, thorough: every size for every policy) x certificate key sizes allowed by the policy (1024/2048, thorough adds "
              "4096), checks Reassemble(Receive(Secure(Split(m)))) = m on the specified layout and prints it; the harness builds a real "
              "WriteRequest / ReadResponse / OpenSecureChannelRequest / Response of exactly that encoded size and runs Chunker::encode, "
              "apply_security, verify_and_remove_security, Chunker::decode on a sender-role and a receiver-role channel; distinct by "
@@ -41,6 +58,12 @@ def run(ctx):
     n_multi = sum(1 for c in cases if c["exp"]["n"] > 1)
     ctx.notes["cases_with_more_than_one_chunk"] = n_multi
     ctx.notes["opn_cases"] = sum(1 for c in cases if c["c"]["kind"] == "opn")
+    pads = {}
+    for c in cases:
+        if c["c"]["kind"] == "opn" and c["c"]["rbits"] > 0:
+            k = "%s receiver %d" % (c["c"]["pol"], c["c"]["rbits"])
+            pads.setdefault(k, set()).add(c["exp"]["chunks"][0]["pad"])
+    ctx.notes["distinct_padding_sizes_exercised"] = {k: len(v) for k, v in sorted(pads.items())}
     ctx.assumptions += ["the DER length of the minted certificates and the smallest encoded size of each message kind are measured "
                         "on the real code (engine chaninfo) and handed to TLC as constants",
                         "OPN messages are one chunk (Part 6: the final flag of OPN chunks is always F): OPN lengths above the "
